@@ -127,6 +127,7 @@ func (h *Header) decode(data []byte) error {
 	h.TerminalPhoneNo = utils.Bcd2Dec(h.bcdTerminalPhoneNo)
 	h.SerialNumber = binary.BigEndian.Uint16(data[start+phoneLen : start+phoneLen+2])
 	end := start + phoneLen + 2
+	h.SubPackageSum, h.SubPackageNo = 0, 0
 	if h.Property.isSubPackage {
 		if len(data) < start+phoneLen+6 {
 			return protocol.ErrHeaderLength2Short
@@ -173,6 +174,7 @@ func (p *BodyProperty) decode(data []byte) {
 	p.bit14 = byte((attribute >> 14) & 0b1) // 第14位 协议版本 0-2013 1-2019
 	p.Version = p.bit14
 	p.PacketFragmented = byte((attribute >> 13) & 0b1) // 第13位 分包
+	p.isSubPackage = false                             // 复用同一个JTMessage解析时 不保留上一帧的分包标识
 	if p.PacketFragmented == 1 {
 		p.isSubPackage = true
 	}
